@@ -81,6 +81,7 @@ var c07Sources = []filesCase{
 	{Root: "s8.sysl", Files: map[string]string{"s8.sysl": "Shop [~db:\n    Ep:\n        ...\n"}},
 	{Root: "s9.sysl", Files: map[string]string{"s9.sysl": "Shop ]]:\n    Ep [a=[\"x\"]]]:\n        ...\n"}},
 	{Root: "s10.sysl", Files: map[string]string{"s10.sysl": "Some App:\n    !type T:\n        id <: int\n        s <: string\n        d <: datetime\n    Ep (p <: int):\n        | text line [x]\n        return ok <: string\n"}},
+	{Root: "s11.sysl", Files: map[string]string{"s11.sysl": "import i1\nimport i2\nimport i3\nimport i4\nRoot:\n    Ep:\n        I1 <- E\n", "i1.sysl": "I1:\n    E:\n        ...\n", "i2.sysl": "I2:\n    E:\n        ...\n", "i3.sysl": "I3:\n    E:\n        ...\n", "i4.sysl": "I4:\n    E:\n        ...\n"}},
 }
 
 // c07Core: the sources that take part in every combination (s0..s6 by file name)
